@@ -111,6 +111,61 @@ func runC17(p *Plan) {
 				OpCopyTo2(p.Out, e, eo, v, genSeq(r, eo.Type, r.Intn(3)), seqForms[r.Intn(3)], []Form{FormPtr, FormPtr, FormVal, FormForeign}[r.Intn(4)], bufClasses[r.Intn(4)])
 			}
 			OpReset(p.Out, e, v, []Form{FormPtr, FormPtr, FormVal, FormForeign, FormNilP}[r.Intn(5)])
+			if n >= 2 {
+				OpSeqSetHistory(p.Out, e, v, ei == 1)
+			}
 		}
 	}
+}
+
+// OpSeqSetHistory emits one `HS` record: two unbuffered Sets into elements 0 and 1 of ONE sequence, and whether both
+// elements read back as assigned afterwards with everything else unchanged ("Set replaces exactly element i … and
+// changes nothing else" must also hold for the element the previous call stored).
+func OpSeqSetHistory(o *Out, e *TypeEntry, v reflect.Value, isBytes bool) {
+	vtok := Ser(v)
+	arg, root := MakeArg(e.Type, DeepCopy(v), FormPtr)
+	out := "kept"
+	func() {
+		defer func() {
+			if r := recover(); r != nil {
+				out = "panic"
+			}
+		}()
+		var a, b any = "hello-first", "yo"
+		if isBytes {
+			a, b = []byte("hello-first"), []byte("yo")
+		}
+		if err := e.Ins.Set(arg, a, "0"); err != nil {
+			out = "err"
+			return
+		}
+		if err := e.Ins.Set(arg, b, "1"); err != nil {
+			out = "err"
+			return
+		}
+		text := func(x reflect.Value) string {
+			if isBytes {
+				return string(x.Bytes())
+			}
+			return x.String()
+		}
+		got := root()
+		if got.Len() != v.Len() {
+			out = "changed"
+			return
+		}
+		for i := 0; i < v.Len(); i++ {
+			want := text(v.Index(i))
+			if i == 0 {
+				want = "hello-first"
+			} else if i == 1 {
+				want = "yo"
+			}
+			if text(got.Index(i)) != want {
+				out = "changed"
+			}
+		}
+	}()
+	vid := o.DeclareVal(e, vtok)
+	o.Op("HS " + e.Tid + " p " + vid + " | " + PathToks([]string{"0"}) + " | " + PathToks([]string{"1"}) + " | " + out)
 }
